@@ -150,6 +150,9 @@ func (p *ProxyUps) serve(addr string, c net.Conn, end *simnet.End, idx int) {
 	}
 	read := func(echo bool) {
 		buf := make([]byte, 4096)
+		if end.Dgram() {
+			buf = make([]byte, 65536) // a datagram read into a smaller buffer loses its tail
+		}
 		for {
 			n, err := c.Read(buf)
 			if n > 0 {
